@@ -17,6 +17,10 @@ Proof. vm_compute. reflexivity. Qed.
 Lemma server_programs_wb : cc_table_wb server_programs cc_fuel server_entries = true.
 Proof. vm_compute. reflexivity. Qed.
 
+(* the client's table contains no wait action (they are emitted for the server only) *)
+Lemma client_programs_nowait : cc_table_nowait client_programs = true.
+Proof. vm_compute. reflexivity. Qed.
+
 Lemma client_good prog ps : cc_runs_table client_programs client_entries prog ps -> cc_good ps.
 Proof. intros [Hin HF]. exact (cc_table_good _ _ _ _ _ client_programs_wb Hin HF). Qed.
 
@@ -48,7 +52,8 @@ Section Table.
                forall j, cc_holds c1 j = true -> j = i.
   Proof.
     intros Hr H Ha. apply (cc_access_by_holder ps e1 i a e2 c (tb_good _ _ Hr) H).
-    destruct a; discriminate.
+    - destruct a; discriminate.
+    - intros w. destruct a; discriminate.
   Qed.
 
   Lemma tb_one_outstanding prog ps evs c : cc_runs_table tb entries prog ps ->
@@ -56,9 +61,28 @@ Section Table.
     exists o, cc_txs evs = cc_rxs evs ++ cc_olist o /\ (forall k, o = Some k -> cc_holds c k = true).
   Proof. intros Hr. apply cc_one_outstanding, (tb_good _ _ Hr). Qed.
 
-  Lemma tb_tx_then_rx prog ps e1 i e e2 c : cc_runs_table tb entries prog ps ->
+  (* a table without waits (the client): the event after a Tx is the Rx of the same thread *)
+  Lemma tb_tx_then_rx prog ps e1 i e e2 c : cc_table_nowait tb = true ->
+    cc_runs_table tb entries prog ps ->
     cc_exec (cc_init ps) (e1 ++ (i, ATx) :: e :: e2) c -> e = (i, ARx).
-  Proof. intros Hr. apply cc_tx_then_rx, (tb_good _ _ Hr). Qed.
+  Proof.
+    intros Hnw Hr. apply cc_tx_then_rx_nowait; [exact (tb_good _ _ Hr)|].
+    destruct Hr as [_ HF]. clear -Hnw HF.
+    induction HF as [|ms p prog' ps' Hp _ IH]; constructor; [|exact IH].
+    exact (cc_thread_path_nowait tb ms p Hnw Hp).
+  Qed.
+
+  (* a goroutine that waits for a peer does not hold the mutex *)
+  Lemma tb_wait_not_holder prog ps e1 i w e2 c : cc_runs_table tb entries prog ps ->
+    cc_exec (cc_init ps) (e1 ++ (i, AWait w) :: e2) c ->
+    exists c1, cc_exec (cc_init ps) e1 c1 /\ cc_holds c1 i = false.
+  Proof. intros Hr. apply cc_wait_not_holder, (tb_good _ _ Hr). Qed.
+
+  (* the holder of the mutex is never about to wait for a peer *)
+  Lemma tb_holder_not_waiting prog ps evs c i th w r : cc_runs_table tb entries prog ps ->
+    cc_exec (cc_init ps) evs c -> nth_error c i = Some th -> ct_holds th = true ->
+    ct_rem th <> AWait w :: r.
+  Proof. intros Hr. apply cc_holder_not_waiting, (tb_good _ _ Hr). Qed.
 
   Lemma tb_own_reply prog ps evs c k i : cc_runs_table tb entries prog ps ->
     cc_exec (cc_init ps) evs c ->
@@ -82,3 +106,9 @@ Section Table.
         destruct a2; cbn in Hc |- *; try discriminate; reflexivity.
   Qed.
 End Table.
+
+(* the client: contiguity in its strong form (its table has no waits) *)
+Lemma client_tx_then_rx prog ps e1 i e e2 c :
+  cc_runs_table client_programs client_entries prog ps ->
+  cc_exec (cc_init ps) (e1 ++ (i, ATx) :: e :: e2) c -> e = (i, ARx).
+Proof. exact (tb_tx_then_rx _ _ client_programs_wb prog ps e1 i e e2 c client_programs_nowait). Qed.
